@@ -1,6 +1,7 @@
 (* C08 — the diagonal update obeys exact detailed balance in every slot. *)
 From Coq Require Import List QArith ZArith NArith Bool Arith.
-From QmcV Require Import Model.Prog Model.Sse Model.Diagonal Proofs.ProgLemmas Proofs.DiagonalProofs.
+From QmcV Require Import Model.Prog Model.Sse Model.Diagonal Proofs.ProgLemmas Proofs.DiagonalProofs
+     Proofs.WorldLine Proofs.Expect Proofs.SweepStationary.
 Import ListNotations.
 Open Scope Q_scope.
 
@@ -66,3 +67,39 @@ Example C08_ex_regimes :
   /\ (mass (is_slot None) (denote (met_slot H 3 1 1 [true; false] (Some (mk_diag H 0 [true; false])))) == 3 # 20)
   /\ (mass (is_slot (Some (mk_diag H 1 [true; false]))) (denote (met_slot H 3 0 1 [true; false] None)) == 1 # 12).
 Proof. vm_compute. repeat split. Qed.
+
+(* ---- the same balance stated on complete configurations: the update of slot p, as a kernel on
+   (p = 0 state, operator string) with the state at p obtained by propagation and the count read from
+   the string, is in detailed balance with the SSE weight between ANY two consistent legal
+   configurations — insertion/removal pairs, unrelated configurations (both probabilities 0),
+   off-diagonal operators (never altered) ---- *)
+Theorem C08_slot_kernel_detailed_balance : forall H beta L slot p x y,
+  slot_good H beta L slot -> 0 < beta ->
+  length (snd x) = L -> length (snd y) = L -> good H x = true -> good H y = true ->
+  sse_weight H beta (snd x) * mass (cfg_eqb y) (denote (slot_at slot p x))
+  == sse_weight H beta (snd y) * mass (cfg_eqb x) (denote (slot_at slot p y)).
+Proof. intros H beta L slot p x y Hs. exact (slot_at_detailed_balance H beta L slot Hs p x y). Qed.
+Print Assumptions C08_slot_kernel_detailed_balance.
+
+(* both variants meet the assumptions: structural outcomes, total mass one, zero-weight operators
+   have probability zero entry by entry, and the ratio P_ins (L - n) = beta w P_rem *)
+Theorem C08_metropolis_slot_good : forall H beta L,
+  0 < beta -> (0 < h_nbonds H)%nat -> slot_good H beta L (fun n st o => met_slot H L n beta st o).
+Proof. exact met_slot_good. Qed.
+Print Assumptions C08_metropolis_slot_good.
+
+Theorem C08_heatbath_slot_good : forall H beta L,
+  0 < beta -> slot_good H beta L (fun n st o => hb_slot H (bond_weights H) L n beta st o).
+Proof. exact hb_slot_good. Qed.
+Print Assumptions C08_heatbath_slot_good.
+
+(* the probability of reaching a configuration from another by the update of slot p is the slot
+   program's probability of producing the new content, and 0 unless they differ at p only *)
+Theorem C08_slot_kernel_probability : forall slot s sl s' sl' p o,
+  nth_error sl p = Some o ->
+  mass (cfg_eqb (s', sl')) (denote (slot_at slot p (s, sl)))
+  == if (bools_eqb s' s && slots_eqb sl' (set_nth sl p (nth p sl' None)))%bool
+     then mass (is_slot (nth p sl' None)) (denote (slot (count_ops sl) (propagate s (firstn p sl)) o))
+     else 0.
+Proof. exact mass_slot_at. Qed.
+Print Assumptions C08_slot_kernel_probability.
